@@ -297,9 +297,103 @@ def _replace(root: ast.AST, old: ast.AST, new: ast.AST) -> bool:
     return False
 
 
+def _chain(e: ast.AST) -> Optional[List[str]]:
+    parts: List[str] = []
+    while isinstance(e, ast.Attribute):
+        parts.append(e.attr)
+        e = e.value
+    if isinstance(e, ast.Name):
+        parts.append(e.id)
+        return parts[::-1]
+    return None
+
+
+METHOD_NAMES: Set[str] = set()
+
+
+def method_names(trees: List[ast.AST]) -> Set[str]:
+    """Names that are methods (not properties) of some class of the package."""
+    out: Set[str] = set()
+    props: Set[str] = set()
+    for t in trees:
+        for c in ast.walk(t):
+            if isinstance(c, ast.ClassDef):
+                for m in c.body:
+                    if isinstance(m, (ast.FunctionDef, ast.AsyncFunctionDef)):
+                        decos = [ast.unparse(d) for d in m.decorator_list]
+                        if any(d == "property" or d.endswith(".setter") or d.endswith("cached_property") for d in decos):
+                            props.add(m.name)
+                        else:
+                            out.add(m.name)
+    return out - props
+
+
+def _fold_aliases(func: ast.AST, props: Set[str]) -> int:
+    """`t = self.a.b` (the only binding of t; a plain attribute chain none of whose attributes is
+    an effectful property, and no part of which is assigned in this function): every use of t
+    is the chain.  Makes `get_label = self.classdb.get_label` before a loop invisible."""
+    import copy
+
+    for n in ast.walk(func):
+        for ch_ in ast.iter_child_nodes(n):
+            ch_._cparent = n  # type: ignore[attr-defined]
+    stores: Dict[str, int] = {}
+    attr_stores: Set[str] = set()
+    a = func.args
+    params = {x.arg for x in a.posonlyargs + a.args + a.kwonlyargs} | ({a.vararg.arg} if a.vararg else set()) | ({a.kwarg.arg} if a.kwarg else set())
+    for n in ast.walk(func):
+        if isinstance(n, ast.Name) and isinstance(n.ctx, (ast.Store, ast.Del)):
+            stores[n.id] = stores.get(n.id, 0) + 1
+        elif isinstance(n, ast.Attribute) and isinstance(n.ctx, (ast.Store, ast.Del)):
+            attr_stores.add(n.attr)
+        elif isinstance(n, (ast.Global, ast.Nonlocal)):
+            for nm in n.names:
+                stores[nm] = stores.get(nm, 0) + 2
+    folded = 0
+    for holder in [func] + [n for n in _local_nodes(func)]:
+        for block in _blocks(holder):
+            i = 0
+            while i < len(block):
+                st = block[i]
+                name = value = None
+                if isinstance(st, ast.Assign) and len(st.targets) == 1 and isinstance(st.targets[0], ast.Name):
+                    name, value = st.targets[0].id, st.value
+                elif isinstance(st, ast.AnnAssign) and isinstance(st.target, ast.Name) and st.value is not None:
+                    name, value = st.target.id, st.value
+                ch = _chain(value) if value is not None and isinstance(value, ast.Attribute) else None
+                if (name is None or ch is None or name in params or stores.get(name, 0) != 1 or ch[0] not in ("self", "cls")
+                        or "*" in props or any(x in props for x in ch[1:]) or any(x in attr_stores for x in ch[1:])
+                        or stores.get(ch[0], 0) > 0):
+                    i += 1
+                    continue
+                # only a *bound method* may be read through: `x = self.a.b` with b a plain value is a snapshot
+                # of that value (do_level keeps the level counter to see whether it has changed)
+                if ch[-1] not in METHOD_NAMES:
+                    i += 1
+                    continue
+                uses = [n for n in ast.walk(func) if isinstance(n, ast.Name) and n.id == name and isinstance(n.ctx, ast.Load)]
+                if not all(isinstance(getattr(u, "_cparent", None), ast.Call) and getattr(u, "_cparent").func is u for u in uses):
+                    i += 1
+                    continue
+                # every use must come after the binding in source order (a loop could otherwise read it before)
+                if not uses or any((u.lineno, u.col_offset) < (st.lineno, st.col_offset) for u in uses):
+                    i += 1
+                    continue
+                for u in uses:
+                    _replace(func, u, copy.deepcopy(value))
+                del block[i]
+                folded += 1
+            # an emptied block cannot happen: the binding was followed by at least one use elsewhere,
+            # but the block itself may now be empty
+            if not block:
+                block.append(ast.Pass())
+    return folded
+
+
 def canonicalise(tree: ast.AST, props: Set[str]) -> int:
     total = 0
     for n in ast.walk(tree):
         if isinstance(n, (ast.FunctionDef, ast.AsyncFunctionDef)):
+            total += _fold_aliases(n, props)
             total += _fold_function(n, props)
     return total
